@@ -7,11 +7,11 @@ props = [json.loads(l) for l in open(os.path.join(V, "properties.jsonl"))]
 TB = 'Trusted: Lean kernel + propext/Classical.choice/Quot.sound (audited per theorem each run); the go/ast extractor and the Skeleton facts it emits; '
 CLAIMED = {
  "C19": ("Lean 4 proof over LTS model M1 (inductive invariants) + regenerated skeleton + trace validation under a controlled scheduler",
-         "Theorems (Props/C19.lean) for all reachable states of the broadcaster LTS, any number of threads/keys/contexts and every interleaving: no panic, at most one receiver per published value, no cross-key delivery, publish/receive enabledness once freed/closed/cancelled, justified outcomes, idempotent Free. Tied to the source by facts regenerated from /repo (Tie 1) and by replaying every executed schedule of the real Broadcaster on the model (Tie 2).",
+         "Theorems (Props/C19.lean) for all reachable states of the broadcaster LTS, any number of threads/keys/contexts and every interleaving: no panic, at most one receiver per published value, no cross-key delivery, publish/receive enabledness once freed/closed/cancelled, justified outcomes, idempotent Free. Tied to the source by facts regenerated from /repo (Tie 1) and by replaying every executed schedule of the real Broadcaster on the model (Tie 2). Also C19Mailbox.lean: forward simulation of M1 to a short sequential per-key mailbox specification through an abstraction function (every reachable M1 state abstracts to a reachable spec state; at-most-once, no cross-key, no cross-epoch transfer); the monitor runs in lockstep on every validated real trace.",
          TB + "Go channel/select/context semantics as modelled; hook placement; the scheduler's settle detection. Not carried by the theorem: Go scheduler fairness.",
          "DESIGN.md 7 C19, A.1"),
  "C18": ("Lean 4 proof over a structural model of the remote-definition walk + regenerated skeleton + differential run against real reflect",
-         "Theorems (Props/C18.lean) for ALL remote struct shapes (any depth, order, mix): link succeeds iff every function field is valid, the error is the first invalid field's in depth-first order (return shape before arguments), non-function fields are irrelevant, the walk never panics, stub name = dotted path and Go's strings.Split inverts the join. Tie 2: 25 compiled remote types are linked for real in subprocesses, every stub invoked, outcome compared with the model and with an oracle computed from reflect.Type.",
+         "Theorems (Props/C18.lean) for ALL remote struct shapes (any depth, order, mix): link succeeds iff every function field is valid, the error is the first invalid field's in depth-first order (return shape before arguments), non-function fields are irrelevant, the walk never panics, stub name = dotted path and Go's strings.Split inverts the join. Tie 2: 25 compiled remote types are linked for real in subprocesses, every stub invoked, outcome compared with the model and with an oracle computed from reflect.Type. Compose.lean: for EVERY valid definition, the request sent by the stub at path P resolves, in the lookup model on the mirrored local object, to the method at P of the instance at P (C18_naming_agrees_with_lookup).",
          TB + "reflect's Set/CanSet/FieldByName behaviour as modelled (validated on the zoo); callee-side lookup is C07's model.",
          "DESIGN.md 7 C18"),
  "C17": ("Lean 4 proof over a tree model of frame construction + regenerated skeleton (struct tags, literals) + independent decoding of captured frames",
@@ -23,15 +23,15 @@ CLAIMED = {
          TB + "serializer value semantics are the parameter; arg-count check precedes decoding (C07).",
          "DESIGN.md 7 C09"),
  "C10": ("Lean 4 proof over the wire model with Go's unicode.IsSpace table + regenerated skeleton + message differential on the real link",
-         "Theorems (Props/C10.lean) for all message strings: a message with a non-blank character arrives byte-exact (untrimmed) for both return shapes, with the accompanying value; nil stays nil (also after earlier error frames); blank-only messages arrive as nil (outside the property's domain, stated as a fact). Tie 2: isGoSpace checked against unicode.IsSpace on all code points by the wire agent's differential; corner-case and PRNG messages through handlers and closures, both directions, 3 configs x 2 APIs, link must stay alive.",
+         "Theorems (Props/C10.lean) for all message strings: a message with a non-blank character arrives byte-exact (untrimmed) for both return shapes, with the accompanying value; nil stays nil (also after earlier error frames); blank-only messages arrive as nil (outside the property's domain, stated as a fact). Tie 2: isGoSpace checked against unicode.IsSpace on all code points by the wire agent's differential; corner-case and PRNG messages through handlers and closures, both directions, 3 configs x 2 APIs, link must stay alive. Also C10Callee.lean: a returning handler (any shape, any message) yields exactly one response with the request's id and never a setErr (an application error is not fatal), at most one response per request.",
          TB + "error identity is compared by message.",
          "DESIGN.md 7 C10"),
  "C11": ("Lean 4 proof over a model of convertValue / the closure wrapper + regenerated skeleton + differential against the real convertValue",
-         "Theorems (Props/C11.lean): for all supported value lists (numbers, booleans, strings, slices of those, zero/empty/nil) under JSON and CBOR generic decoding the wrapper runs the function once with exactly those values; convertValue never panics for any source/destination; arity and inconvertible arguments are ordinary errors; value and error are handed back unchanged, result direction total. Tie 2: 685 source x destination pairs through the real convertValue (verif accessor) vs the model; closure workloads (0..5 invocations, concurrent, both directions, 10-parameter typed closure) on the real link. The exactly-once part rests on C01's model.",
+         "Theorems (Props/C11.lean): for all supported value lists (numbers, booleans, strings, slices of those, zero/empty/nil) under JSON and CBOR generic decoding the wrapper runs the function once with exactly those values; convertValue never panics for any source/destination; arity and inconvertible arguments are ordinary errors; value and error are handed back unchanged, result direction total. Tie 2: 685 source x destination pairs through the real convertValue (verif accessor) vs the model; closure workloads (0..5 invocations, concurrent, both directions, 10-parameter typed closure) on the real link. The exactly-once part rests on C01's model. Compose.lean bridges to M3: for every returned CallClosure call there is exactly one invocation record with its args and return, and for it the wrapper runs the user function once with the embedded values.",
          TB + "reflect.ConvertibleTo/Convert on the modelled classes (bit widths, non-integral floats, []byte outside the model).",
          "DESIGN.md 7 C11, 8 F3"),
  "C08": ("Lean 4 proof over an LTS of the stream demultiplexer (refinement to FIFO message delivery) + regenerated skeleton + transcript equality across configurations",
-         "Theorems (Props/C08.lean, C08Live.lean) for every envelope sequence and interleaving: each reader sees exactly the FIFO subsequence of its members, nothing lost/duplicated/invented while the context lives, the decode error arrives after all earlier members and only then, envelopes carry exactly one member, the decoder can always finish (guarded hand-off). Payload opacity is a checked source fact (stPayloadOpaque). Tie 2: seeded workloads replayed under 8 configurations (2 APIs, PRNG stream chunking, 3 serializers): transcripts must be equal.",
+         "Theorems (Props/C08.lean, C08Live.lean) for every envelope sequence and interleaving: each reader sees exactly the FIFO subsequence of its members, nothing lost/duplicated/invented while the context lives, the decode error arrives after all earlier members and only then, envelopes carry exactly one member, the decoder can always finish (guarded hand-off). Payload opacity is a checked source fact (stPayloadOpaque). Tie 2: seeded workloads replayed under 8 configurations (2 APIs, PRNG stream chunking, 3 serializers): transcripts must be equal. Also C08Param.lean: payload parametricity as functoriality — for any payload translation that is a codec homomorphism, frame construction, parsing and the end-to-end call observables commute / are equal, for every skeleton; stream vs message link give equal observables; the stream demultiplexer is blind to payload content (step_map).",
          TB + "parametricity in the payload type is argued from the source fact, not proved as a free theorem.",
          "DESIGN.md 7 C08"),
  "C20": ("Lean 4 proof of a lockset theorem over a fragment of the Go memory model, instantiated by `decide` on the access table regenerated from the source; race detector as cross-check",
@@ -55,7 +55,7 @@ CLAIMED = {
          TB + "the stream decoder's ability to finish is C08Live's theorem; scheduler fairness.",
          "DESIGN.md 7 C14, 8 F4 F5b"),
  "C01": ("Lean 4 proof over LTS model M3 (two endpoints, frames in flight as multisets) + regenerated skeleton + concurrent workloads under adversarial delivery",
-         "Theorems (Props/C01.lean) for all reachable states, any number of calls in both directions and every delivery order: call ids unique, every request/response frame carries the id/fn/args/return of exactly the thread that produced it, at most one invocation per (endpoint, id) and exactly one once returned, a returned (v, err) is the return of the unique invocation with that id and the call's fn/args (C01_result_is_own), no publish ever completes a call with a different id; a registered call can always complete (partial: from `registered`). Witnesses show recv-before-write and fresh ids are load-bearing. Tie 2: N concurrent echo calls in both directions with random / reverse / hold-all-responses delivery, 3 serializers x 2 APIs: each call returns the serial and arguments of exactly one invocation carrying its own arguments.",
+         "Theorems (Props/C01.lean) for all reachable states, any number of calls in both directions and every delivery order: call ids unique, every request/response frame carries the id/fn/args/return of exactly the thread that produced it, at most one invocation per (endpoint, id) and exactly one once returned, a returned (v, err) is the return of the unique invocation with that id and the call's fn/args (C01_result_is_own), no publish ever completes a call with a different id; a registered call can always complete (partial: from `registered`). Witnesses show recv-before-write and fresh ids are load-bearing. Tie 2: N concurrent echo calls in both directions with random / reverse / hold-all-responses delivery, 3 serializers x 2 APIs: each call returns the serial and arguments of exactly one invocation carrying its own arguments. Also (Props/C01Live.lean): full C01_can_complete — every registered or written call whose handler chain is not stalled returns by an explicit continuation of <= 8+6n steps (progress invariant locating its frame/handler/publisher), and the stalled hypothesis is necessary. Real concurrent workloads (transport taps + hooks) are replayed on M3.",
          TB + "fresh uuids; the transport delivers frames intact; M3's broadcaster abstraction (pending set) vs M1 is argued, not proved.",
          "DESIGN.md 7 C01"),
  "C02": ("Lean 4 proof over LTS model M3 (enabledness of the read loops independent of handler state; explicit completing runs by induction on depth) + regenerated skeleton + nested/stalled workloads",
@@ -71,7 +71,7 @@ CLAIMED = {
          TB + "the reading of 'before its response arrives' in DESIGN.md 7 C04 (both-ready select); Go's select coin cannot be steered: schedules are repeated.",
          "DESIGN.md 7 C04"),
  "C05": ("Lean 4 proof over M2 + M1 (no-crash invariant through the projection lemma) + regenerated skeleton + schedule exploration and shutdown stress in child processes",
-         "Theorems (Props/C05.lean): crashed = false in every reachable state of M2 (send-on-closed / double-close are the crash-capable steps; excluded by M1's NC invariant under the regenerated facts); every reachable M2 state embeds a reachable M1 state; the table lock is never held across a blocking operation. Callee-side containment of user panics is by the utils.Call recover facts (ucRecovers, reqCallViaUtilsCall, clCallViaUtilsCall) and exercised dynamically. Tie 2: the C04 scenarios incl. duplicate/late responses and link shutdown racing responses, each schedule in a child process (crash = exit status); shutdown stress: 48 calls in flight on link/child/independent contexts cancelled concurrently with link shutdown, 400 rounds.",
+         "Theorems (Props/C05.lean): crashed = false in every reachable state of M2 (send-on-closed / double-close are the crash-capable steps; excluded by M1's NC invariant under the regenerated facts); every reachable M2 state embeds a reachable M1 state; the table lock is never held across a blocking operation. Callee-side containment of user panics is by the utils.Call recover facts (ucRecovers, reqCallViaUtilsCall, clCallViaUtilsCall) and exercised dynamically. Tie 2: the C04 scenarios incl. duplicate/late responses and link shutdown racing responses, each schedule in a child process (crash = exit status); shutdown stress: 48 calls in flight on link/child/independent contexts cancelled concurrently with link shutdown, 400 rounds. Also: C05Callee.lean (callee-side LTS: handler/closure/lookup panics never crash, closure panics become error responses; response building is recovered — F10) and C05Deadlock.lean (no internal deadlock: every live internal thread has an enabled step or is parked at one of four blocking operations waiting only for an external event or a thread that itself can step; no wait-for cycle; what wakes a blocked waiter/publisher).",
          TB + "reflect panics are C06's; user-panic containment is a source fact + dynamic check, not an LTS theorem.",
          "DESIGN.md 7 C05, 8 F1"),
  "C12": ("Lean 4 proof over LTS model M2 (closure table = closures of calls in flight, via a ghost owner map) + regenerated skeleton + exit-path matrix on the real link",
